@@ -3,6 +3,7 @@ import ast
 
 from ..core import astutil as A
 from ..core import bashlex as B
+from ..core import match as M
 from ..core.model import dotted
 
 META = {
@@ -13,6 +14,41 @@ META = {
 MOD = "pkgcore.ebuild.processor"
 LIB = "data/lib/pkgcore/ebd/ebuild-daemon-lib.bash"
 DAEMON = "data/lib/pkgcore/ebd/ebuild-daemon.bash"
+
+
+def _is_noop(st):
+    """an expression statement without effect (a bare constant / docstring-like line), or `pass`"""
+    return isinstance(st, ast.Pass) or (isinstance(st, ast.Expr) and isinstance(st.value, ast.Constant))
+
+
+def _value_names(fn):
+    """Names that hold an environment VALUE (or one element of a sequence value) inside _generate_env_str, found by
+    role: the second target of the loop over ``<env param>.items()``, plus comprehension targets drawn from such a name
+    (the element, not the index, of an ``enumerate``).  Returns (loop, key-name, value-name, all value names)."""
+    ps = fn.params()
+    envp = ps[1] if len(ps) > 1 else "env_dict"
+    loop = key = val = None
+    vals = set()
+    for n in A.walk(fn.node):
+        if isinstance(n, ast.For) and M.has(n.iter, f"{envp}.items()") and isinstance(n.target, ast.Tuple) and len(n.target.elts) == 2 and all(isinstance(x, ast.Name) for x in n.target.elts):
+            if loop is None:
+                loop, key, val = n, n.target.elts[0].id, n.target.elts[1].id
+            vals.add(n.target.elts[1].id)
+    grew = True
+    while grew:
+        grew = False
+        for comp in [n for n in A.walk(fn.node) if isinstance(n, (ast.GeneratorExp, ast.ListComp, ast.SetComp, ast.DictComp))]:
+            for gen in comp.generators:
+                if not (A.names_in(gen.iter) & vals):
+                    continue
+                tgt = gen.target
+                if isinstance(gen.iter, ast.Call) and dotted(gen.iter.func) == "enumerate" and isinstance(tgt, ast.Tuple) and len(tgt.elts) == 2:
+                    tgt = tgt.elts[1]
+                new = set(A.assigned_names(tgt)) - vals
+                if new:
+                    vals |= new
+                    grew = True
+    return loop, key, val, vals
 
 
 def run(ctx):
@@ -76,13 +112,13 @@ def run(ctx):
 
     # ---- R2 quoting ------------------------------------------------------------------------------------------------
     gfn = EP.methods["_generate_env_str"]
+    value_names = _value_names(gfn)[3]
     n_interp = 0
     for js in [n for n in A.walk(gfn.node) if isinstance(n, ast.JoinedStr)]:
         for fv in js.values:
             if not isinstance(fv, ast.FormattedValue):
                 continue
-            names = set(A.names_in(fv.value))
-            if not (names & {"val", "value"}) or "key" in names and not (names & {"val", "value"}):
+            if not (A.names_in(fv.value) & value_names):
                 continue
             if isinstance(getattr(js, "_parent", None), ast.Call) and A.unparse(js._parent.func) in ("KeyError", "TypeError"):
                 continue
@@ -100,9 +136,16 @@ def run(ctx):
         return _r3r4(ctx, P, EP, dm)
     q = EP.methods["_quote_env_value"]
     v = q.params()[0]
-    ifs = [n for n in q.node.body if isinstance(n, ast.If)]
-    ctx.check("R2", q, len(ifs) == 2 and A.unparse(ifs[0].test) == f"{v}.isalnum()" and A.unparse(ifs[0].body[0]) == f"return {v}", "bare-alnum", "alphanumeric values are sent bare")
-    ctx.check("R2", q, len(ifs) == 2 and A.unparse(ifs[1].test) == f"\"'\" not in {v}" and A.unparse(ifs[1].body[-1]).replace('"', "'") in (f"return f''{{{v}}}''", ) or (len(ifs) == 2 and "not in" in A.unparse(ifs[1].test) and "'" in A.unparse(ifs[1].test)), "single-quote-when-no-quote", "values without a single quote go inside single quotes (nothing is special there)",
+    # the two early forms are top-level guards of the function (the parameter is spelled from the signature)
+    top = q.node.body
+    alnum = [n for n in top if M.pat(f"if {v}.isalnum():\n    return {v}").matches(n)]
+    ctx.check("R2", q, len(alnum) == 1 and not alnum[0].orelse, "bare-alnum", "alphanumeric values are sent bare")
+    sq = [n for n in top if M.pat(f"if \"'\" not in {v}:\n    return $$form").matches(n)]
+    sq_ok = False
+    if len(sq) == 1 and not sq[0].orelse:
+        form = A.returns(sq[0])[-1].value
+        sq_ok = isinstance(form, ast.JoinedStr) and M.pat(f"""f"'{{{v}}}'" """.strip()).matches(form) is not None
+    ctx.check("R2", q, sq_ok and bool(alnum) and alnum[0].lineno < sq[0].lineno, "single-quote-when-no-quote", "values without a single quote go inside single quotes (nothing is special there)",
               "the single-quote branch of _quote_env_value no longer requires that the value has no single quote", node=q.node)
     chain = []
     for t, val, _ in A.assignments(q.node, v):
@@ -125,7 +168,11 @@ def run(ctx):
               f"_escape_double_quoted escapes {elems}: bash treats \\ \" $ ` specially inside double quotes; a missing one is interpreted by bash (lost backslash, expansion, swallowed closing quote)", node=loops[0])
     ctx.check("R2", e, bool(elems) and elems[0] == "\\", f"dq-backslash-first:{elems[:1] if elems else None}", "backslash is escaped first (else the added escapes are doubled)",
               "_escape_double_quoted does not escape backslash first: the backslashes it adds for other characters get doubled", node=loops[0])
-    ctx.check("R2", e, A.unparse(loops[0].body[0]) == "val = val.replace(char, '\\\\' + char)", "dq-escape-form", "each special gets one backslash in front")
+    ev = e.params()[0]
+    form_ok = isinstance(loops[0].target, ast.Name) and M.pat(f"for $c in $_:\n    {ev} = {ev}.replace($c, '\\\\' + $c)").matches(loops[0]) is not None
+    erets = A.returns(e.node)
+    ret_ok = len(erets) == 1 and M.pat(f"return {ev}").matches(erets[0]) is not None and erets[0].lineno > loops[0].lineno and erets[0] in e.node.body
+    ctx.check("R2", e, form_ok and ret_ok and sum(not _is_noop(x) for x in loops[0].body) == 1, "dq-escape-form", "each special gets one backslash in front; the escaped text is what the helper returns")
     ctx.floor("R2", 9)
     _r3r4(ctx, P, EP, dm)
 
@@ -139,23 +186,49 @@ def _r3r4(ctx, P, EP, dm):
     is_set = isinstance(val, ast.Call) and dotted(val.func) in ("frozenset", "set") and val.args and isinstance(val.args[0], ast.Call) and A.call_attr(val.args[0]) == "split"
     ctx.check("R3", g, is_set, f"marker-is-name-set:{A.unparse(val)[:50]}", "the marker is split into a set of names",
               f"`{nm} = {A.unparse(val)}` keeps the marker as a string: `key in {nm}` is then a SUBSTRING test, so D, T, S, A, PV... match inside DEPEND, DISTDIR, SLOT, ARCH, PVR and are silently not exported", node=val)
-    ctx.check("R3", g, "pop('PKGCORE_NONEXPORTED_VARS'" in A.unparse(val), "marker-not-sent", "the marker itself is removed from what is sent")
-    t = A.unparse(g.node)
-    ctx.check("R3", g, f"(plain if key in {nm} else exported).append(assign)" in t, "membership-routes", "marked names go to the bare-assignment list, all others to the export list")
-    ctx.check("R3", g, "lines.append(' '.join(plain))" in t and "lines.append(f'export {' '.join(exported)}')" in t and "return '\\n'.join(lines)" in t, "emission-shape", "bare assignments on their own line, then one `export ...` line")
-    ctx.check("R3", g, "assign = f'{key}={self._quote_env_value(val)}'" in t, "scalar-quoted", "scalars are quoted by _quote_env_value")
-    ctx.check("R3", g, "self._escape_double_quoted(value)" in t and "assign = f'{key}=({elements})'" in t and "for i, value in enumerate(val)" in t.replace("(i, value)", "i, value"), "array-form", "sequences become NAME=([0]=\"..\" [1]=\"..\") with escaped elements")
-    ctx.check("R3", g, "if key in self._readonly_vars:\n" in t and "sorted(env_dict.items())" in t, "readonly-skipped-sorted", "readonly shell variables are skipped; output order is sorted")
-    ctx.check("R3", g, "raise KeyError" in t and "raise TypeError" in t, "bad-input-rejected", "invalid names and non-text values are rejected, not mangled")
+    envp = g.params()[1] if len(g.params()) > 1 else "env_dict"
+    ctx.check("R3", g, M.has(val, f"{envp}.pop('PKGCORE_NONEXPORTED_VARS', ...)"), "marker-not-sent", "the marker itself is removed from what is sent")
+    # locals are bound by ROLE: key/value of the loop over the (sorted) items, the marker set found above
+    loop, key, vname, _ = _value_names(g)
+    L = loop if loop is not None else g.node
+    E = {"nm": nm}
+    if loop is not None:
+        E.update(key=key, val=vname)
+    route = M.one(L, "($plain if $key in $nm else $exported).append($assign)", E)
+    ctx.check("R3", g, route is not None and route["plain"] != route["exported"] and loop is not None and A.stmt_of(route.node) in loop.body, "membership-routes", "marked names go to the bare-assignment list, all others to the export list")
+    E2 = dict(route.env) if route else dict(E)
+    after = loop.end_lineno if loop is not None else 0
+    p1 = M.one(g.node, "$lines.append(' '.join($plain))", E2)
+    p2 = M.one(g.node, "$lines.append(f\"export {' '.join($exported)}\")", p1.env if p1 else E2)
+    fin = A.returns(g.node)[-1] if A.returns(g.node) else None
+    p3 = M.pat("return '\\n'.join($lines)").matches(fin, p2.env if p2 else E2) if fin is not None else None
+    ctx.check("R3", g, bool(p1 and p2 and p3) and after < p1.node.lineno < p2.node.lineno < fin.lineno and M.has(g.node, "$lines = []", p3.env), "emission-shape", "bare assignments on their own line, then one `export ...` line")
+    ctx.check("R3", g, M.has(L, "$assign = f'{$key}={self._quote_env_value($val)}'", E2), "scalar-quoted", "scalars are quoted by _quote_env_value")
+    ctx.check("R3", g, M.has(L, "$elements = ' '.join((f'[{$i}]=\"{self._escape_double_quoted($value)}\"' for $i, $value in enumerate($val)))\n$assign = f'{$key}=({$elements})'", E2), "array-form", "sequences become NAME=([0]=\"..\" [1]=\"..\") with escaped elements")
+    ctx.check("R3", g, loop is not None and M.pat(f"for $key, $val in sorted({envp}.items()):\n    if $key in self._readonly_vars:\n        continue").matches(loop) is not None, "readonly-skipped-sorted", "readonly shell variables are skipped; output order is sorted")
+    bad_name = [m for m in M.find(L, "if $$c:\n    raise KeyError($_)") if key in A.names_in(m.env["$c"])]
+    ctx.check("R3", g, loop is not None and bool(bad_name) and M.has(L, "if not isinstance($val, $_):\n    raise TypeError($_)", E), "bad-input-rejected", "invalid names and non-text values are rejected, not mangled")
     ctx.floor("R3", 8)
 
     # ---- R4 routes ----------------------------------------------------------------------------------------------------------
     se = EP.methods["send_env"]
-    ts = A.unparse(se.node)
-    ctx.check("R4", se, "data = self._generate_env_str(env_dict)" in ts, "one-text", "both routes send the text of _generate_env_str")
-    ctx.check("R4", se, "file.write(data)" in ts and "self.write(f'start_receiving_env file {path}')" in ts, "file-route", "file route: text written to the transfer file, daemon told to source it")
-    ctx.check("R4", se, "self.write_sized('start_receiving_env bytes', data)" in ts or "start_receiving_env bytes" in ts, "inline-route", "inline route: `start_receiving_env bytes <size>` + payload")
-    ctx.check("R4", se, "return self.expect('env_received', async_req=async_req, flush=True)" in ts, "ack-awaited", "the transfer is acknowledged by env_received")
+    sp = se.params()
+    envp4 = sp[1] if len(sp) > 1 else "env_dict"
+    gen = M.one(se.node.body, f"$data = self._generate_env_str({envp4})")
+    ctx.check("R4", se, gen is not None and gen.node in se.node.body and len(A.assignments(se.node, gen["data"])) == 1, "one-text", "both routes send the text of _generate_env_str")
+    E4 = dict(gen.env) if gen else {}
+    after = gen.node.lineno if gen else 0
+    fr = M.one(se.node, "with open($path, ...) as $file:\n    $file.write($data)\nself.write(f'start_receiving_env file {$path}')", E4)
+    ctx.check("R4", se, fr is not None and fr.node.lineno > after, "file-route", "file route: text written to the transfer file, daemon told to source it")
+    inline = [c for c in A.calls(se.node) if M.pat("self.write_sized('start_receiving_env bytes', $data)").matches(c, E4)]
+    if not inline and gen:
+        # a hand-built frame (judged by R1): still the same text after the `start_receiving_env bytes` head
+        inline = [c for c in A.calls(se.node) if A.unparse(c.func) == "self.write" and c.args and isinstance(c.args[0], ast.JoinedStr) and (A.fstring_prefix(c.args[0]) or "").startswith("start_receiving_env bytes")
+                  and any(isinstance(p, ast.FormattedValue) and isinstance(p.value, ast.Name) and p.value.id == gen["data"] for p in c.args[0].values)]
+    ctx.check("R4", se, bool(inline) and all(c.lineno > after for c in inline), "inline-route", "inline route: `start_receiving_env bytes <size>` + payload")
+    srets = A.returns(se.node)
+    ctx.check("R4", se, bool(srets) and srets[-1] in se.node.body and M.pat("return self.expect('env_received', async_req=async_req, flush=True)").matches(srets[-1]) is not None
+              and all(c.lineno < srets[-1].lineno for c in inline) and (fr is None or fr.node.lineno < srets[-1].lineno), "ack-awaited", "the transfer is acknowledged by env_received")
     cases = [c for c in B.case_blocks(dm.src) if any("start_receiving_env*" in a.patterns for a in c.arms)]
     ctx.require(cases, "ebuild-daemon.bash: start_receiving_env handler not found")
     arm = [a for a in cases[0].arms if "start_receiving_env*" in a.patterns][0]
